@@ -754,3 +754,81 @@ CONTROLS['C12'] = [
     reuse('C04', 'c04-drop-cleanup-post', 'c12-drop-failure-cleanup', 'R12.3'),
     reuse('C04', 'c04-benign-rename-closure', 'c12-benign-rename-closure', None),
 ]
+
+HRP = H + 'resource_provider.py'
+CONTROLS['C09'] = [
+    M('c09-no-loop-check', RP,
+      "                if parent_uuid in subtree_rp_uuids:\n"
+      "                    raise exception.ObjectActionError(\n"
+      "                        action='update',\n"
+      "                        reason='creating loop in the provider tree is '\n"
+      "                               'not allowed.')\n", "", 'R9.1'),
+    M('c09-loop-check-on-children-only', RP,
+      "                subtree_rp_uuids = {rp.uuid for rp in subtree_rps}",
+      "                subtree_rp_uuids = {rp.uuid for rp in subtree_rps[1:2]}",
+      'R9.1'),
+    M('c09-root-is-parent-id', RP,
+      "                updates['root_provider_id'] = parent_ids.root_id\n"
+      "                updates['parent_provider_id'] = parent_ids.id\n"
+      "                self.root_provider_uuid = parent_ids.root_uuid\n"
+      "                new_root_id = parent_ids.root_id",
+      "                updates['root_provider_id'] = parent_ids.id\n"
+      "                updates['parent_provider_id'] = parent_ids.id\n"
+      "                self.root_provider_uuid = parent_ids.root_uuid\n"
+      "                new_root_id = parent_ids.root_id", 'R9.2'),
+    M('c09-subtree-gets-other-root', RP,
+      "                self.root_provider_uuid = parent_ids.root_uuid\n"
+      "                new_root_id = parent_ids.root_id",
+      "                self.root_provider_uuid = parent_ids.root_uuid\n"
+      "                new_root_id = parent_ids.id", 'R9.2'),
+    M('c09-reparent-gate-1.36', HRP,
+      "    allow_reparenting = want_version.matches((1, 37))",
+      "    allow_reparenting = want_version.matches((1, 36))", 'R9.3'),
+    M('c09-reparent-always-allowed', HRP,
+      "        resource_provider.save(allow_reparenting=allow_reparenting)",
+      "        resource_provider.save(allow_reparenting=True)", 'R9.3'),
+    M('c09-unparent-ungated', RP,
+      "                    if not allow_reparenting:\n"
+      "                        raise exception.ObjectActionError(\n"
+      "                            action='update',\n"
+      "                            reason='un-parenting a provider is not currently '\n"
+      "                                   'allowed.')\n", "", 'R9.1'),
+    M('c09-reparent-gate-weakened', RP,
+      "                if (my_ids.parent_id is not None and\n"
+      "                        my_ids.parent_id != parent_ids.id and\n"
+      "                        not allow_reparenting):",
+      "                if (my_ids.parent_id is not None and\n"
+      "                        my_ids.parent_id != parent_ids.root_id and\n"
+      "                        not allow_reparenting):", 'R9.1'),
+    M('c09-create-self-parent-ok', RP,
+      "            if parent_uuid == self.uuid:\n                raise exception.ObjectActionError(\n"
+      "                    action='create',",
+      "            if parent_uuid == self.name:\n                raise exception.ObjectActionError(\n"
+      "                    action='create',", 'R9.1'),
+    M('c09-create-unknown-parent-ok', RP,
+      "            if parent_ids is None:\n                raise exception.ObjectActionError(\n"
+      "                    action='create',\n"
+      "                    reason='parent provider UUID does not exist.')\n\n"
+      "            parent_id = parent_ids.id",
+      "            parent_id = parent_ids.id", 'R9.1'),
+    M('c09-top-level-root-missing', RP,
+      "            db_rp.root_provider_id = db_rp.id\n", "            pass\n",
+      'R9.2'),
+    M('c09-delete-parent-allowed', RP,
+      "        if _has_child_providers(context, _id):\n            raise exception.CannotDeleteParentResourceProvider()\n",
+      "", 'R9.4'),
+    M('c09-oae-as-409', HRP,
+      "    except exception.ObjectActionError as exc:\n        raise webob.exc.HTTPBadRequest(\n"
+      "            'Unable to save resource provider",
+      "    except exception.ObjectActionError as exc:\n        raise webob.exc.HTTPConflict(\n"
+      "            'Unable to save resource provider", 'R9.5'),
+    M('c09-subtree-rewrite-skips', RP,
+      "        for rp in subtree_rps:\n            # If the parent is not updated",
+      "        for rp in subtree_rps[:1]:\n            # If the parent is not updated",
+      'R9.2'),
+    B('c09-benign-compare-order', RP,
+      "            if parent_uuid == self.uuid:\n                raise exception.ObjectActionError(\n"
+      "                    action='create',",
+      "            if self.uuid == parent_uuid:\n                raise exception.ObjectActionError(\n"
+      "                    action='create',"),
+]
